@@ -1,6 +1,6 @@
 """property id -> check function"""
 import json, sys
-import checks_bytecode, checks_source, checks_vm
+import checks_bytecode, checks_source, checks_vm, checks_io
 
 CHECKS = {
     'C02': checks_bytecode.c02,
@@ -12,9 +12,11 @@ CHECKS = {
     'C12': checks_source.c12,
     'C13': checks_source.c13,
     'C14': checks_source.c14,
+    'C08': checks_io.c08,
     'C09': checks_vm.c09,
     'C15': checks_vm.c15,
     'C16': checks_vm.c16,
+    'C17': checks_io.c17,
 }
 
 
